@@ -71,10 +71,10 @@ func rej(reason string) expect { return expect{verdict: mustReject, reason: reas
 
 func (x *input) typed(tag byte, name string) (c []byte, e expect, ok bool) {
 	if x.perr != "" {
-		return nil, rej("no DER TLV: " + x.perr), false
+		return nil, rej(x.perr), false
 	}
 	if x.tlv.Tag != tag {
-		return nil, rej("identifier octet is not " + name), false
+		return nil, rej("identifier octet is not that of the type"), false
 	}
 	return x.tlv.Content, expect{}, true
 }
@@ -107,6 +107,20 @@ func fitsSigned(v int64, bits int) bool {
 	return v >= -(int64(1)<<(bits-1)) && v < int64(1)<<(bits-1)
 }
 
+func kindBits(kind string) int {
+	switch kind {
+	case "int8", "uint8":
+		return 8
+	case "int16", "uint16":
+		return 16
+	case "int32", "uint32":
+		return 32
+	case "int64", "uint64":
+		return 64
+	}
+	return strconv.IntSize
+}
+
 // expectInt is the model for an INTEGER-like content read into a Go integer kind.
 func expectInt(c []byte, kind string, consumed int) expect {
 	m := modelInt(c)
@@ -116,22 +130,22 @@ func expectInt(c []byte, kind string, consumed int) expect {
 	e := expect{verdict: mustAccept, consumed: consumed}
 	switch kind {
 	case "int8", "int16", "int32", "int64", "int":
-		bits := map[string]int{"int8": 8, "int16": 16, "int32": 32, "int64": 64, "int": strconv.IntSize}[kind]
+		bits := kindBits(kind)
 		if m.big || !fitsSigned(m.v, bits) {
-			return rej("value does not fit " + kind)
+			return rej("value does not fit the destination type")
 		}
 		e.val = m.v
 	case "uint8", "uint16", "uint32", "uint64", "uint":
-		bits := map[string]int{"uint8": 8, "uint16": 16, "uint32": 32, "uint64": 64, "uint": strconv.IntSize}[kind]
+		bits := kindBits(kind)
 		if m.big {
 			bv := m.bigInt()
 			if bv.Sign() < 0 || bv.BitLen() > bits {
-				return rej("value does not fit " + kind)
+				return rej("value does not fit the destination type")
 			}
 			e.val = bv.Uint64()
 		} else {
 			if m.v < 0 || (bits < 64 && m.v >= int64(1)<<bits) {
-				return rej("value does not fit " + kind)
+				return rej("value does not fit the destination type")
 			}
 			e.val = uint64(m.v)
 		}
@@ -205,6 +219,8 @@ func eqVal(a, b any) bool {
 	}
 	return reflect.DeepEqual(a, b)
 }
+
+var defBig = big.NewInt(7777)
 
 type anyOut struct {
 	out []byte
@@ -321,7 +337,7 @@ func optIntReader(kind string) reader {
 			return s.ReadOptionalASN1Integer(&v, p, uint8(200)), uint64(v)
 		case "big":
 			v := new(big.Int)
-			return s.ReadOptionalASN1Integer(v, p, big.NewInt(7777)), v
+			return s.ReadOptionalASN1Integer(v, p, defBig), v
 		default:
 			var v []byte
 			return s.ReadOptionalASN1Integer(&v, p, []byte{9, 9}), v
@@ -349,14 +365,14 @@ func explicit(x *input, p, innerTag byte, innerName string) (inner []byte, e exp
 		return nil, expect{verdict: mustAccept, consumed: 0, reason: "absent"}, false
 	}
 	if x.perr != "" {
-		return nil, rej("explicit tag present but no DER TLV: " + x.perr), false
+		return nil, rej("explicit tag present but no DER TLV"), false
 	}
 	in, why := derref.Parse(x.tlv.Content)
 	if why != "" {
-		return nil, rej("content of the explicit tag is no DER TLV: " + why), false
+		return nil, rej("content of the explicit tag is no DER TLV"), false
 	}
 	if in.Tag != innerTag {
-		return nil, rej("inner identifier octet is not " + innerName), false
+		return nil, rej("inner identifier octet is not that of the type"), false
 	}
 	if in.Total != len(x.tlv.Content) {
 		return nil, rej("trailing bytes after the inner element inside the explicit tag"), false
@@ -447,7 +463,7 @@ func readers() []reader {
 					return expect{verdict: mustAccept, val: optOut{nil, false}, consumed: 0, reason: "absent"}
 				}
 				if x.perr != "" {
-					return rej("tag present but no DER TLV: " + x.perr)
+					return rej("tag present but no DER TLV")
 				}
 				return expect{verdict: mustAccept, val: optOut{x.tlv.Content, true}, consumed: x.tlv.Total}
 			}},
@@ -458,7 +474,7 @@ func readers() []reader {
 					return expect{verdict: mustAccept, consumed: 0, reason: "absent"}
 				}
 				if x.perr != "" {
-					return rej("tag present but no DER TLV: " + x.perr)
+					return rej("tag present but no DER TLV")
 				}
 				return expect{verdict: mustAccept, consumed: x.tlv.Total}
 			}},
